@@ -54,3 +54,8 @@ def run(P: Program, rep: Report):
                          f"splitter calls library.{n.func.attr}: an already added block is touched")
     rep.count("splitter_method_calls_scanned", calls)
     rep.ok("C04.R4", "library:no-remove-replace", mod.relpath, f"{calls} method calls scanned, none removes/replaces (control: Library defines both)")
+
+    rep.rule("C04.R9", "no unsafe memoisation in the modules this property rests on: a function decorated with lru_cache / cache / "
+                      "cached_property neither takes nor returns a mutable object (else later calls see stale or shared results)")
+    from . import common as _common
+    _common.no_unsafe_memoisation(P, rep, "C04.R9", ['splitter'])
